@@ -96,7 +96,9 @@ func c06Scalars() []c06Scalar {
 	out = append(out, c06Scalar{YAML: "0x7FFFFFFFFFFFFFFF", JSON: "9223372036854775807", Kind: "int", Num: "9223372036854775807"},
 		c06Scalar{YAML: "0x8000000000000000", JSON: "9223372036854775808", Kind: "bigint", Num: "9223372036854775808"},
 		c06Scalar{YAML: "0xFFFFFFFFFFFFFFFF", JSON: "18446744073709551615", Kind: "bigint", Num: "18446744073709551615"})
-	floats := []string{"1.5", "-0.5", "1e10", "1E-7", "1.0", "0.5", "6.02e23", "3.141592653589793", "1e-320", "123456.789e3"}
+	floats := []string{"1.5", "-0.5", "1e10", "1E-7", "1.0", "0.5", "6.02e23", "3.141592653589793", "1e-320", "123456.789e3",
+		// whole numbers in float notation at the edges of the 64-bit integers (exactly 2^63, -2^63, 2^64, 2^53) and just inside
+		"9223372036854775808.0", "9.223372036854775808e18", "-9223372036854775808.0", "-9.223372036854775808e18", "18446744073709551616.0", "9007199254740992.0", "9.2233720368547748e18", "-9.2233720368547778e18", "1e19", "100.0", "1e2"}
 	for _, f := range floats {
 		v, _ := strconv.ParseFloat(f, 64)
 		out = append(out, c06Scalar{YAML: f, JSON: f, Kind: "float", Num: strconv.FormatFloat(v, 'g', -1, 64)})
